@@ -4,6 +4,7 @@ form without dispersion, treats one polarisation like the x-polarisation of two,
 Theorems about `Model/FiberNL.lean` at ℝ; the driver runs the same definitions at Float against FIBER().
 -/
 import OptiVerif.Lemmas.FiberNLPhase
+import OptiVerif.Lemmas.FiberNLLinear
 
 namespace OptiVerif.Props.C08
 open OptiVerif OptiVerif.Fourier OptiVerif.Fiber OptiVerif.FiberNL
@@ -135,6 +136,20 @@ theorem one_pol_eq_x_pol (wConv kappa fs alpha b2 b3 gamma phiMax L : ℝ) (fuel
       = (fiber wConv kappa fs alpha b2 b3 gamma phiMax L fuel [x]).map
           (fun o => ⟨[o.rows.headD [], zeros (o.rows.headD []).length], o.steps⟩) :=
   fiber_twin wConv kappa fs alpha b2 b3 gamma phiMax L fuel x
+
+/-! ### gamma = 0: the nonlinear model restricted to a linear fibre IS C07's model -/
+
+/-- without nonlinearity (gamma = 0) FIBER takes one step of the whole length and every row is C07's linear all-pass
+    `fiberLinRow` (so C07's theorems — loss factor, span additivity, FIBER(L, β₂) = DM(β₂L) — apply to this model verbatim) -/
+theorem gamma0_is_linear_fiber (wConv kappa fs alpha b2 b3 phiMax L : ℝ) (A : Rows ℝ) (hL : 0 < L) (fuel : ℕ) (hf : 1 ≤ fuel) :
+    fiber wConv kappa fs alpha b2 b3 0 phiMax L fuel A
+      = .ok ⟨A.map (fiberLinRow wConv kappa fs alpha b2 b3 L), [L]⟩ :=
+  fiber_gamma0 wConv kappa fs alpha b2 b3 phiMax L A hL fuel hf
+
+/-- a single split step without nonlinearity is the linear filter of that step length (used by the schedule replay) -/
+theorem step_gamma0_is_linear (wConv fs alphaP b2 b3 : ℝ) (xs : List (Cx ℝ)) (h : ℝ) :
+    stepRow wConv fs alphaP b2 b3 0 xs h = applyH (fiberH wConv (wAxis xs.length fs) alphaP b2 b3 h) xs :=
+  stepRow_gamma0 wConv fs alphaP b2 b3 xs h
 
 /-! ### termination -/
 
